@@ -4670,10 +4670,11 @@ def from_array(arr, chunksize=50_000, columns=None, meta=None):
 
     from dask_expr.io.io import FromArray
 
-    if isinstance(arr, np.ndarray) and not arr.flags.owndata:
-        # A view is tokenized together with its base, the array it turns into
-        # when the collection is pickled is not: own the data (like from_pandas
-        # does) so that the name is the same wherever the collection is loaded
+    if isinstance(arr, np.ndarray):
+        # Own the data like from_pandas does: the collection (and its name) must
+        # not follow later edits of the caller's array. A view is moreover
+        # tokenized together with its base, the array it turns into when the
+        # collection is pickled is not.
         arr = arr.copy(order="K")
     result = FromArray(
         arr,
@@ -5325,7 +5326,8 @@ def repartition(df, divisions, force=False):
     elif is_dataframe_like(df) or is_series_like(df):
         return new_collection(
             FromPandasDivisions(
-                _BackendData(df),
+                # own the data like from_pandas does
+                _BackendData(df.copy()),
                 divisions=divisions,
                 pyarrow_strings_enabled=pyarrow_strings_enabled(),
             )
